@@ -29,6 +29,8 @@ open CuqiVerif CuqiVerif.Proto CuqiVerif.C16
   lscall JAC method loss tol PYNUM          -> jac|method|loss|xtol|max_nfev|accept|reject  | err:<class>   (JAC = None|callable|str:<s>)
   lsinfo                                    -> x=1 success=1 msg=M func=2 jac=3 nfev=4        (`wrapLS` on tagged fields)
   rewrap WRAPPER iscuqi                     -> cuqi|plain
+  asbudget PYNUM                            -> ctor=<n|err> assigned=<n|unbounded> fista=<n|unbounded>
+  lmtrace M Q b x0 nuInit nu0 gradtol maxit -> i|branch codes per pass (R,U,S,H,Z)|f non-increasing (1/0)
 -/
 
 def parseBool (s : String) : Option Bool :=
@@ -93,7 +95,7 @@ def runCgls (op : Oper) (b x0 : List Rat) (shift tol : Rat) (maxit : Nat) : Stri
 
 def runPcgls (op : Oper) (explicitInv : Bool) (P : List (List Rat)) (b x0 : List Rat) (shift tol : Rat) (maxit : Nat) : String :=
   match toVec op.m b, toVec op.n x0, toMat op.n op.n P with
-  | some b, some x0, some _ =>
+  | some b, some x0, some Pm =>
     -- `scipy.sparse.linalg.inv` of a 1×1 matrix returns a 1-D array; `Pinv @ x` is then 0-d and `A @ t` raises
     -- (only once the loop body runs, i.e. `maxit ≥ 1`)
     if explicitInv && op.n == 1 && maxit ≥ 1 then "err-inv-1x1" else
@@ -104,6 +106,8 @@ def runPcgls (op : Oper) (explicitInv : Bool) (P : List (List Rat)) (b x0 : List
       match toMat op.n op.n Pi with
       | none => "err-certificate"
       | some Pim =>
+        -- the certificate on the arrays `pcgls` is run with (hypothesis of the `_cert` theorems, `Props/C16_cert.lean`)
+        if !(isInverseCert Pm Pim) then "err-certificate" else
         fmtCG' (fun k => pcgls (oQ op.n) (oQ op.m) op.fwd op.adj b tol eps64 (mulVec Pim) (mulVecT Pim) shift x0 k) maxit
   | _, _, _ => "err-dim"
 
@@ -396,7 +400,7 @@ def stepPcSolve (form : String) (args : List String) : Option String := do
     | none => some "err-dim"
     | some op =>
       match toVec op.m b, toVec op.n x0, toMat op.n op.n P with
-      | some b, some x0, some _ =>
+      | some b, some x0, some Pm =>
         match QMat.inverse P with
         | none => some "err-singular"
         | some Pi =>
@@ -404,6 +408,7 @@ def stepPcSolve (form : String) (args : List String) : Option String := do
           match toMat op.n op.n Pi with
           | none => some "err-certificate"
           | some Pim =>
+            if !(isInverseCert Pm Pim) then some "err-certificate" else
             let br := fmtBranch (pinvBranch (op.n : Int) mdi hc)
             match pcglsSolve (oQ op.n) (oQ op.m) op.fwd op.adj b (op.n : Int) mdi hc (mulVec Pim) (mulVecT Pim) shift tol eps64 x0 maxit with
             | .ok (x, k) => some s!"{k}|{fmtV x}|{br}"
@@ -531,6 +536,59 @@ def stepRewrap (args : List String) : Option String :=
     | .cuqi _ g => some (if g = 7 then "cuqi" else "cuqi-other-geometry")
   | _ => none
 
+/-- `lmtrace M Q b x0 nuInit nu0 gradtol maxit` -> `i|c_1,…,c_i|mono`: per pass the branch of the damping loop
+    (`R` rejected; accepted: `U` nu raised, `S` nu kept, `H` nu halved, `Z` nu set to 0), and whether `f = ½‖r‖²` is non-increasing along the states -/
+def runLmTrace (Ml Ql : List (List Rat)) (b x0 : List Rat) (nuInit nu0 gradtol : Rat) (maxit : Nat) : String :=
+  let m := Ml.length
+  let n := QMat.ncols Ml
+  if m = 0 ∨ n = 0 then "err-dim" else
+  match toMat m n Ml, toMat m n Ql, toVec m b, toVec n x0 with
+  | some M, some Q, some b, some x0 =>
+    let insolve := fun (J : Mat Rat m n) (nu : Rat) (g : Vector Rat n) => (lmSolveQ J nu g).getD (Vector.replicate n 0)
+    let run := fun k => lm (oQ n) (oQ m) (lmRes M Q b) (lmJac M Q) (fun J r => mulVecT J r) insolve nu0 gradtol x0 nuInit k
+    let st := run maxit
+    let states := (List.range (st.i + 1)).map run
+    let okAll := (states.take st.i).all (fun s => (lmSolveQ s.J s.nu s.g).isSome)
+    if !okAll then "err-singular" else
+    let code := fun (a c : LMState Rat (Vector Rat n) (Vector Rat m) (Mat Rat m n)) =>
+      if c.x.toList == a.x.toList && c.f == a.f then "R"
+      else if c.nu == a.nu then "S"
+      else if c.nu == 0 then "Z"
+      else if c.nu == a.nu / 2 then "H"
+      else "U"
+    let codes := (List.zip states (states.drop 1)).map (fun (a, c) => code a c)
+    let fs := states.map (·.f)
+    let mono := (List.zip fs (fs.drop 1)).all (fun (a, c) => decide (c ≤ a))
+    s!"{st.i}|{if codes.isEmpty then "_" else ",".intercalate codes}|{fmtBool mono}"
+  | _, _, _, _ => "err-dim"
+
+def stepLmTrace (args : List String) : Option String :=
+  match args with
+  | [m, q, b, x0, nuInit, nu0, gradtol, maxit] => do
+    let M ← parseMat m
+    let Q ← parseMat q
+    let b ← parseVec b
+    let x0 ← parseVec x0
+    let nuInit ← parseRat nuInit
+    let nu0 ← parseRat nu0
+    let gradtol ← parseRat gradtol
+    let maxit ← maxit.toNat?
+    some (runLmTrace M Q b x0 nuInit nu0 gradtol maxit)
+  | _ => none
+
+/-- `asbudget PYNUM` -> `ctor=<n|err:…> assigned=<n|unbounded> fista=<n|unbounded>`: passes allowed through the constructor
+    (`int(maxit)`) and with the attribute re-assigned afterwards (raw number) -/
+def stepAsBudget (args : List String) : Option String :=
+  match args with
+  | [p] => do
+    let p ← parsePyNum p
+    let c := match pyInt p with
+      | .ok n => toString (budget n)
+      | .error e => fmtCtorErr e
+    let f := fun (o : Option Nat) => match o with | some n => toString n | none => "unbounded"
+    some s!"ctor={c} assigned={f (budgetAssigned p)} fista={f (budgetAssignedFista p)}"
+  | _ => none
+
 def step : List String → String
   | "cgls" :: form :: args => orBad (stepCgls form args)
   | "pcgls" :: form :: args => orBad (stepPcgls form args)
@@ -553,6 +611,8 @@ def step : List String → String
   | "lscall" :: args => orBad (stepLsCall args)
   | "lsinfo" :: args => orBad (stepLsInfo args)
   | "rewrap" :: args => orBad (stepRewrap args)
+  | "lmtrace" :: args => orBad (stepLmTrace args)
+  | "asbudget" :: args => orBad (stepAsBudget args)
   | _ => "bad-op"
 
 def main : IO Unit := runDriver step
